@@ -72,7 +72,8 @@ static cfg_value_t t_val0, t_val1, *t_vals[2];
 #ifdef TREE_DEEP      /* a third level: s { b ; t { c } }  (t a single section with its one instance) */
 static cfg_t t_sub0, t_sub1; static cfg_opt_t t_subopts0[2], t_subopts1[2]; static cfg_value_t t_subval0, t_subval1, *t_subvals0[1], *t_subvals1[1];
 #endif
-static char t_title[2][2];
+char in_ttl[2][2];      /* the instances' titles (inputs: they appear in counterexamples) */
+#define t_title in_ttl
 static void mk_one(cfg_t *sec, cfg_opt_t *opts, cfg_value_t *val, unsigned i)
 {
 	opts[0].name = "b"; opts[0].type = CFGT_INT; opts[1].name = NULL; opts[1].type = CFGT_NONE;
